@@ -113,7 +113,11 @@ func TestVerif_C44_Resolve(t *testing.T) {
 		}
 		var file strings.Builder
 		file.WriteString("[ethereum]\nURL = \"ws://127.0.0.1:8546\"\nKeyFile = \"/tmp/verif-keyfile\"\n\n[storage]\nDir = \"/tmp/verif-storage\"\n\n")
+		wantPeers := explicitPeers
 		switch c.Get("peers").Str() {
+		case "fileSingle":
+			wantPeers = explicitPeers[:1]
+			file.WriteString("[network]\nPeers = [\"" + explicitPeers[0] + "\"]\n\n")
 		case "file":
 			file.WriteString("[network]\nPeers = [\"" + strings.Join(explicitPeers, "\", \"") + "\"]\n\n")
 		case "flag":
@@ -133,6 +137,12 @@ func TestVerif_C44_Resolve(t *testing.T) {
 				src = c.Get("contracts").Get(cn).Str()
 			}
 			switch src {
+			case "fileMalformed":
+				// one digit missing: explicit, but not a well-formed address
+				bad := c44Addr("file", idx[cn])
+				bad = bad[:len(bad)-1]
+				dev.WriteString(fmt.Sprintf("%sAddress = \"%s\"\n", cn, bad))
+				wantAddr[cn] = "malformed:" + bad
 			case "file":
 				dev.WriteString(fmt.Sprintf("%sAddress = \"%s\"\n", cn, c44Addr("file", idx[cn])))
 				wantAddr[cn] = c44Addr("file", idx[cn])
@@ -186,7 +196,7 @@ func TestVerif_C44_Resolve(t *testing.T) {
 		// peers
 		switch p := exp.Get("peers").Str(); {
 		case p == "explicit":
-			if !reflect.DeepEqual(cfg.LibP2P.Peers, explicitPeers) {
+			if !reflect.DeepEqual(cfg.LibP2P.Peers, wantPeers) {
 				problems = append(problems, fmt.Sprintf("explicit peers overridden: %v", cfg.LibP2P.Peers))
 			}
 		case p == "none":
@@ -224,6 +234,13 @@ func TestVerif_C44_Resolve(t *testing.T) {
 		// contracts
 		for _, cn := range c44AllContracts {
 			got, err := cfg.Ethereum.ContractAddress(cn)
+			if strings.HasPrefix(wantAddr[cn], "malformed:") {
+				raw := cfg.Ethereum.ContractAddresses[strings.ToLower(cn)]
+				if raw != strings.TrimPrefix(wantAddr[cn], "malformed:") || err == nil {
+					problems = append(problems, fmt.Sprintf("explicit (malformed) address of %s was replaced: stored %q, resolves to %s (err=%v)", cn, raw, got.Hex(), err))
+				}
+				continue
+			}
 			if err != nil {
 				problems = append(problems, fmt.Sprintf("contract %s: %v", cn, err))
 				continue
